@@ -111,14 +111,26 @@ def filter_dominates(ctx, res):
 # ---------------------------------------------------------------------------
 # C02.filters-agree
 
-def _abstract_run(fn, name, val, roles):
+def _abstract_run(fn, name, val, roles, functions=None, _depth=0):
     """Walk the CFG of a filter function deterministically under one abstract
     valuation.  Returns ('RET', bool) or raises AnalysisError."""
     g = build_cfg(fn, name)
     nid = g.entry.id
     steps = 0
 
+    _ld = {}
+    for a_ in ast.walk(fn):
+        if isinstance(a_, ast.Assign) and len(a_.targets) == 1 \
+                and isinstance(a_.targets[0], ast.Name):
+            _ld.setdefault(a_.targets[0].id, []).append(a_.value)
+
     def role(e):
+        # a temporary stands for its single definition
+        for _ in range(3):
+            if isinstance(e, ast.Name) and len(_ld.get(e.id, [])) == 1:
+                e = _ld[e.id][0]
+            else:
+                break
         t = norm(e)
         for k, pats in roles.items():
             if any(re.fullmatch(p, t) for p in pats):
@@ -155,6 +167,12 @@ def _abstract_run(fn, name, val, roles):
                     {role(l), role(r)} == {"old", "uninit"}:
                 v = val["old_uninit"]
                 return v if isinstance(op, ast.Is) else not v
+            if isinstance(op, ast.NotEq):
+                flipped = ast.Compare(l, [ast.Eq()], [r])
+                try:
+                    return not eval_bool(flipped)
+                except AnalysisError:
+                    pass
             if isinstance(op, ast.Eq):
                 lt, rt = norm(l), norm(r)
                 if lt.endswith(".type") and rt == "TraitKind.trait.name" \
@@ -165,6 +183,16 @@ def _abstract_run(fn, name, val, roles):
                         or rt.endswith(".comparison_mode") \
                         and lt == "ComparisonMode.equality":
                     return val["mode_eq"]
+        if isinstance(e, ast.UnaryOp) and isinstance(e.op, ast.Not):
+            return not eval_bool(e.operand)
+        if isinstance(e, ast.Call) and isinstance(e.func, ast.Name) \
+                and functions and e.func.id in functions and _depth < 2:
+            # a private predicate of the module: run it under the same
+            # valuation (its atoms are matched by the same patterns)
+            r_ = _abstract_run(functions[e.func.id], e.func.id, val, roles,
+                               functions, _depth + 1)
+            if r_[0] == "RET":
+                return bool(r_[1])
         raise AnalysisError(f"{name}: condition `{norm(e)}` is outside the "
                             f"modelled atoms of the change filter")
 
@@ -219,8 +247,8 @@ def _abstract_run(fn, name, val, roles):
       "abstract case")
 def filters_agree(ctx, res):
     repo = get_pyrepo(ctx)
-    fa = repo.func(TN, "_change_accepted")
-    fp = repo.func(HTH, "ctrait_prevent_event")
+    fa = repo.inlined(TN, "_change_accepted")
+    fp = repo.inlined(HTH, "ctrait_prevent_event")
     pa = [a.arg for a in fa.args.args]          # object, name, old, new
     pe = fp.args.args[0].arg                     # event
     roles_a = {"old": [re.escape(pa[2])], "new": [re.escape(pa[3])],
@@ -246,8 +274,10 @@ def filters_agree(ctx, res):
     for ou, kt, me, cr, eq in itertools.product((False, True), repeat=5):
         val = dict(old_uninit=ou, kind_trait=kt, mode_eq=me, cmp_raises=cr,
                    equal=eq)
-        a = _abstract_run(fa, "_change_accepted", val, roles_a)
-        p = _abstract_run(fp, "ctrait_prevent_event", val, roles_p)
+        a = _abstract_run(fa, "_change_accepted", val, roles_a,
+                          repo.module(TN).functions)
+        p = _abstract_run(fp, "ctrait_prevent_event", val, roles_p,
+                          repo.module(HTH).functions)
         n += 1
         accepted = bool(a[1]) if a[0] == "RET" else None
         prevented = bool(p[1]) if p[0] == "RET" else None
